@@ -344,7 +344,7 @@ func init() {
 	explore.Register(&explore.Check{
 		ID:         "C18",
 		Level:      "model_checking",
-		ShardDepth: 5,
+		ShardDepth: 6,
 		Body:       body,
 		Rule: "declaration with Completer-typed options (short+long, long-only, a multi-byte short name, two different word lists), an optional-argument option, hidden long and hidden short-only options, hidden command, short-only option, commands sharing a prefix (add, adx), alias, sub-subcommand; " +
 			"positionals of add in 5 layouts (none, [Words], [Words,int], [int,Words], [Words, ...Words2]) x subcommands-optional on the parser yes/no x HelpFlag yes/no x {struct tags, API build where a group of the parser is added after the commands and after a first completion and parse on the half-built parser}; every valid prefix (the CLM in prefix mode accepts it) of <= 3 units (quick: <= 2 on the HelpFlag variants and on two of the five positional layouts; thorough: <= 4 on the [Words,int] layout without HelpFlag) over 29 units " +
@@ -354,6 +354,6 @@ func init() {
 		Assumptions:  []string{"left unasserted: option names after --, the echo of a complete short flag, value positions whose type has no completions, PassAfterNonOption"},
 		RequiredHits: []string{"asserted", "offer-reparsed", "class:bare-dash", "class:long-name", "class:long-value", "class:short", "class:positional-value", "class:command-name", "class:option-value-separate", "class:after-terminator"},
 		Bound:        [2]string{"prefixes <= 3 units", "prefixes <= 3 units, <= 4 on one declaration family"},
-		BudgetS:      [2]int{100, 1500},
+		BudgetS:      [2]int{170, 1500},
 	})
 }
